@@ -752,4 +752,19 @@ def omsgImages (m : OMsg) : List Img :=
   | .parts ps => ps.flatMap partImages
 
 
+
+/-! ### repair of finding F5 (variant): incoming text cannot spell the beginning of an image tag -/
+
+/-- `strings.ReplaceAll(content, "[img-", "[img -")` (leftmost, non-overlapping; `skip` = bytes of the current match
+    still to be skipped) — what the proposed repair `proposed_fixes/C19-F5-literal-image-tag.patch` applies to every
+    message before anything else -/
+def sanitizeGo : Bytes → Nat → Bytes
+  | [], _ => []
+  | _ :: bs, skip+1 => sanitizeGo bs skip
+  | b :: bs, 0 =>
+    if bImgDash.isPrefixOf (b :: bs) then [91, 105, 109, 103, 32, 45] ++ sanitizeGo bs 4
+    else b :: sanitizeGo bs 0
+
+def sanitizeBytes (s : Bytes) : Bytes := sanitizeGo s 0
+
 end OllamaVerif.Prompt
